@@ -2,7 +2,7 @@
 # tools/try_seed.sh <seed dir> <Cxx> [more Cxx...]  - runs the quick checks against a seeded change (overlay only; /repo untouched)
 d=$1; shift
 for p in "$@"; do
-  out=$(/verif/check $p quick --mutant $d/patch.diff 2>&1 | grep -v "^QSCHED")
+  out=$("$(dirname "$0")/../check" $p quick --mutant $d/patch.diff 2>&1 | grep -v "^QSCHED")
   rc=$?
   echo "== seed $(basename $d) vs $p: $(echo "$out" | grep -c '^VIOLATION') violation line(s)"
   echo "$out" | grep "VERIF-SUMMARY\|VERIF-DETAIL\|HARNESS-ERROR\|BUILD-FAILED" | cut -c1-330 | head -6
